@@ -32,6 +32,8 @@ pub struct BuildCfg<'a> {
   pub file_system: Option<&'a deno_graph::source::FileSystem>,
   pub sched_cost: bool,
   pub module_analyzer: Option<&'a dyn deno_graph::analysis::ModuleAnalyzer>,
+  /// registry metadata shared between builds (non-default `jsr_metadata_store`)
+  pub jsr_metadata_store: Option<Rc<deno_graph::JsrMetadataStore>>,
 }
 
 impl Default for BuildCfg<'_> {
@@ -54,6 +56,7 @@ impl Default for BuildCfg<'_> {
       file_system: None,
       sched_cost: true,
       module_analyzer: None,
+      jsr_metadata_store: None,
     }
   }
 }
@@ -114,6 +117,7 @@ pub fn build_graph<'a>(
   if let Some(a) = cfg.module_analyzer {
     options.module_analyzer = a;
   }
+  options.jsr_metadata_store = cfg.jsr_metadata_store;
   let sched_cost = cfg.sched_cost;
   let fut = graph.build(roots, cfg.imports, loader, options);
   with_canonical_orders(|| drive(fut, &sched, ch, sched_cost))
